@@ -192,7 +192,12 @@ CanaryListChoices(cur, u, nb) ==
         cand == { n \in NodeIds \ have : SelectorMatches(n) /\ u.tmpl \in nd[n].fits }
         need == nb - Len(keep)
     IN IF need <= 0 THEN { keep }
-       ELSE { keep \o SelectSeq(NodeSeq, LAMBDA n : n \in A) : A \in { X \in SUBSET cand : Cardinality(X) = Min2(need, Cardinality(cand)) } }
+       \* the candidates are taken in ascending order of the restarts of the daemon pods they carry (ties in any order)
+       ELSE LET RECURSIVE SumR(_)
+                SumR(q) == IF q = <<>> THEN 0 ELSE Head(q).restarts + SumR(Tail(q))
+                R(n) == SumR(pd[n])
+            IN { keep \o SelectSeq(NodeSeq, LAMBDA n : n \in A) :
+                   A \in { X \in SUBSET cand : Cardinality(X) = Min2(need, Cardinality(cand)) /\ \A n \in X : \A m \in cand \ X : R(n) <= R(m) } }
 
 EDSReconcile ==
     LET s == S  d == AbsEDSOf(ed) IN
